@@ -71,6 +71,9 @@ type AsyncOpts struct {
 	Avoid map[string]bool
 	// Probes is the weight of C11 probe actions (0: none).
 	Probes int
+	// FlagFlips: once per run the application of a validator that has been taking part sets its watch-only flag, between
+	// two calls, in the middle of a view (the flag is a callback: the library must see it at once).
+	FlagFlips bool
 }
 
 // Async is the adversarial-asynchronous driver.
@@ -79,6 +82,7 @@ type Async struct {
 	O        AsyncOpts
 	P        Profile
 	fav      int
+	flipped  bool
 	restarts int
 }
 
@@ -266,6 +270,21 @@ func (a *Async) syncCandidate() *Node {
 
 func (a *Async) step() {
 	w := a.W
+	if a.O.FlagFlips && !a.flipped && a.pct("flagflip", 2) {
+		var cand []*Node
+		for _, n := range w.Live() {
+			if !n.WatchFlag && !n.Faulty && n.D.Validators != nil && n.D.MyIndex >= 0 && len(n.Own[n.D.BlockIndex]) > 0 {
+				cand = append(cand, n) // it has spoken at this height: a validator with a past
+			}
+		}
+		if len(cand) > 0 {
+			n := cand[a.r("flipnode", len(cand))]
+			n.WatchFlag = true
+			a.flipped = true
+			w.Stat("watch_flag_set_mid_view")
+			w.act("node %d sets its watch-only flag at (%d,%d)", n.ID, n.D.BlockIndex, n.D.ViewNumber)
+		}
+	}
 	total := 0
 	var en [numActs]bool
 	for k := 0; k < numActs; k++ {
